@@ -46,6 +46,10 @@ theorem fmod_is_remainder (x : ℝ) (h : -(4 * Real.pi) < x ∧ x < 4 * Real.pi)
   have := Real.pi_pos
   exact fmod_spec x (2 * Real.pi) (by positivity) (by rw [abs_lt]; constructor <;> linarith)
 
+/-- the hypothesis of the three theorems above is exactly the `assert` of the C++ normalisers (`normaliserPre`) -/
+theorem normaliser_precondition (x : ℝ) : normaliserPre x = true ↔ -(4 * Real.pi) < x ∧ x < 4 * Real.pi := by
+  simp [normaliserPre]
+
 example : -(4 * Real.pi) < (-7 : ℝ) ∧ (-7 : ℝ) < 4 * Real.pi := by
   have := Real.pi_gt_three; constructor <;> linarith
 
@@ -124,6 +128,9 @@ theorem proper_rotation2d (a : ℝ) : IsProperRotation2 (eulerAngleToRotation2D 
   simp only [IsProperRotation2, eulerAngleToRotation2D, trans_cos, trans_sin]
   refine ⟨⟨?_, ?_, ?_⟩, ?_⟩ <;> nlinarith
 
+example : SmartInv (Smart.new : Smart ℝ) ∧ SmartInv (Smart.init Smart.new 0.3 (-1.2) 4) :=
+  ⟨smartInv_new, (smartInv_init _ smartInv_new _ _ _).1⟩
+
 example : (⟨1, 2, -3, 0.5⟩ : Quat ℝ) ≠ ⟨0, 0, 0, 0⟩ := by
   intro h; have := congrArg Quat.w h; norm_num at this
 
@@ -201,6 +208,8 @@ example : IsProperRotation (rotZYX 0.3 (Real.pi / 6) (-2)) ∧ |(rotZYX 0.3 (Rea
 theorem quaternion_scale_invariant (s : ℝ) (hs : s ≠ 0) (q : Quat ℝ) :
     quaternionToEulerAngles (qscale s q) = quaternionToEulerAngles q := by
   simp only [quaternionToEulerAngles, toRotationMatrix_qnormalized_qscale s hs q]
+
+example : (-2.5 : ℝ) ≠ 0 := by norm_num
 
 /-! ## the planar pair -/
 
